@@ -212,3 +212,75 @@ Proof.
   assert (nth (N.to_nat (base + 1)) k 0 <> 0) by congruence.
   apply nth_nonzero_lt in H. apply key_ok_len in Hk. lia.
 Qed.
+
+(* ---------------------------------------------------------------- facts for key exactness *)
+Lemma buf_write_content : forall data b off b', buf_write b off data = Some b' ->
+  forall i d, (i < length data)%nat -> nth (off + i) b' d = nth i data d.
+Proof.
+  induction data as [|x data IH]; intros b off b' H i d Hi; cbn [length] in Hi; [lia|].
+  cbn [buf_write] in H. destruct (set_nth b off x) as [b1|] eqn:E; [|discriminate].
+  destruct (set_nth_inv _ _ _ _ E) as (_ & _ & Hn).
+  destruct i as [|i].
+  - destruct (buf_write_inv _ _ _ _ H) as (_ & Hk). rewrite Nat.add_0_r, Hk by lia.
+    rewrite Hn, Nat.eqb_refl. reflexivity.
+  - replace (off + S i)%nat with (S off + i)%nat by lia. cbn [nth]. apply (IH _ _ _ H). lia.
+Qed.
+
+Lemma firstn_nth_ext : forall n (a b : bytes), (n <= length a)%nat -> (n <= length b)%nat ->
+  (forall j, (j < n)%nat -> nth j a 0 = nth j b 0) -> firstn n a = firstn n b.
+Proof.
+  induction n as [|n IH]; intros a b Ha Hb H; [reflexivity|].
+  destruct a as [|x a]; [cbn in Ha; lia|]. destruct b as [|y b]; [cbn in Hb; lia|].
+  cbn [firstn]. f_equal.
+  - apply (H O). lia.
+  - apply IH; cbn [length] in *; [lia|lia|]. intros j Hj. apply (H (S j)). lia.
+Qed.
+
+Lemma firstn_eq_nth : forall n (a b : bytes), firstn n a = firstn n b ->
+  forall j, (j < n)%nat -> nth j a 0 = nth j b 0.
+Proof.
+  induction n as [|n IH]; intros a b H j Hj; [lia|].
+  destruct a as [|x a]; destruct b as [|y b]; cbn [firstn] in H; try discriminate.
+  - reflexivity.
+  - inversion H; subst. destruct j as [|j]; [reflexivity|]. cbn [nth]. apply IH; [assumption|lia].
+Qed.
+
+Lemma count_base_full : forall a b, count_base a b = N.of_nat (length a) ->
+  forall j, (j < length a)%nat -> nth j a 0 = nth j b 0.
+Proof.
+  induction a as [|x a IH]; intros b H j Hj; cbn [length] in Hj; [lia|].
+  cbn [count_base length] in H. destruct b as [|y b]; [lia|].
+  destruct (N.eqb_spec x y) as [->|]; [|lia].
+  destruct j as [|j]; [reflexivity|]. cbn [nth]. apply IH; [|lia].
+  pose proof (count_base_le a b). lia.
+Qed.
+
+Lemma nth_firstn_lt {A} : forall n (l : list A) j d, (j < n)%nat -> nth j (firstn n l) d = nth j l d.
+Proof.
+  induction n as [|n IH]; intros l j d Hj; [lia|].
+  destruct l as [|h t]; [destruct j; reflexivity|]. destruct j as [|j]; [reflexivity|].
+  cbn [firstn nth]. apply IH. lia.
+Qed.
+
+Lemma nth_pad_key k j : (j < 16)%nat -> nth j (pad_key k) 0 = nth j k 0.
+Proof.
+  intros Hj. unfold pad_key. rewrite max_key_val. change (N.to_nat 16) with 16%nat.
+  rewrite nth_firstn_lt by exact Hj.
+  destruct (Nat.lt_ge_cases j (length k)) as [Hlt|Hge].
+  - apply app_nth1. exact Hlt.
+  - rewrite app_nth2 by exact Hge. rewrite (nth_overflow k) by exact Hge.
+    destruct (Nat.lt_ge_cases (j - length k) 16) as [H1|H1].
+    + apply nth_repeat.
+    + apply nth_overflow. rewrite repeat_length. exact H1.
+Qed.
+
+Lemma not_key_char_nonzero rk : existsb is_not_key_char rk = false ->
+  forall j, (j < length rk)%nat ->
+    nth j rk 0 <> 0 /\ nth j rk 0 <> ch_colon /\ nth j rk 0 <> ch_lbr /\ nth j rk 0 <> ch_star.
+Proof.
+  induction rk as [|c rk IH]; intros H j Hj; cbn [length] in Hj; [lia|].
+  cbn [existsb] in H. apply orb_false_iff in H. destruct H as [Hc Hr].
+  destruct j as [|j]; [|cbn [nth]; apply IH; [exact Hr|lia]].
+  cbn [nth]. unfold is_not_key_char in Hc. rewrite !orb_false_iff in Hc.
+  destruct Hc as [[[H0 H1] H2] H3]. apply N.eqb_neq in H0, H1, H2, H3. tauto.
+Qed.
